@@ -42,6 +42,29 @@ def bursts(tier):
     return out
 
 
+def command_bursts(tier):
+    """bursts of agent-sent commands (ad hoc and through registered commanders, overwritable and queued) that overflow
+    the channel between the agent and the runtime's links task: its frames are then cut at arbitrary offsets"""
+    out = []
+    for n in ((12, 40) if tier == "quick" else (12, 40, 150)):
+        acts = [{"k": "attach", "r": 1, "cap": 4096}]
+        v = 1
+        for i in range(n):
+            kind = i % 4
+            if kind == 0:
+                prog = [{"i": "cqueue", "target": "t1", "v": v}, {"i": "send", "target": "t2", "v": v + 1}, {"i": "cqueue", "target": "t1", "v": v + 2}]
+            elif kind == 1:
+                prog = [{"i": "send", "target": "t1", "v": v}, {"i": "send", "target": "t1", "v": v + 1}, {"i": "cqueue", "target": "t2", "v": v + 2}]
+            elif kind == 2:
+                prog = [{"i": "csend", "target": "t2", "v": v}, {"i": "cqueue", "target": "t2", "v": v + 1}, {"i": "send", "target": "t1", "v": v + 2}]
+            else:
+                prog = [{"i": "cqueue", "target": "t1", "v": v}, {"i": "cqueue", "target": "t2", "v": v + 1}, {"i": "cqueue", "target": "t1", "v": v + 2}]
+            acts.append({"k": "send", "r": 1, "lane": "cmd", "op": "cmd", "m": "prog", "prog": prog, "tag": v, "nosettle": i % 3 != 2})
+            v += 3
+        out.append(acts)
+    return out
+
+
 def run(tier, out):
     wd = core.workdir("C14")
     core.build_harness("h_runtime", "e2e")
@@ -52,6 +75,8 @@ def run(tier, out):
         out.add(states=r.generated, transitions=r.generated)
         batches.append(("profile %d" % pi, scripts, {}))
     batches.append(("bursts", bursts(tier), {"target_cap": 64}))
+    for cb in (17, 23, 31, 40, 64):
+        batches.append(("command bursts, %d-byte command channel" % cb, command_bursts(tier), {"cmd_buf": cb, "target_cap": 4096 if cb % 2 else 64}))
     for bi, (name, scripts, cfg) in enumerate(batches):
         cases, results = e2e.run_scripts(wd, scripts, dict({"store": False}, **cfg), tag="run%d" % bi)
         acc, rej, nev = e2e.validate_cases(out, "C14", "Trace_NoCoalesce", cases, results, e2e.proj_nocoalesce, CONSTS, wd,
